@@ -105,7 +105,11 @@ def make_app():
     @app.route('/set')
     def s():
         name, value, secret, via = app._verif
-        if via == 'raised':
+        if via in ('raised', 'raised-over'):
+            if via == 'raised-over':
+                # a hook / earlier code has already put a cookie of this name on the application's response (a default, an
+                # expired session); the response that is actually sent sets it anew
+                app.response.set_cookie(name, 'stale-default', path='/')
             r = HTTPResponse('x')
             r.set_cookie(name, value, secret=secret)
             raise r
@@ -154,7 +158,7 @@ def run(chk):
         n = rng.choice([1, 1, 2, 3, 6, 20])
         val = curated[it] if it < len(curated) else ''.join(chr(rng.choice(cps)) for _ in range(n))
         name = rng.choice(['c', 'sid', 'a_b', 'X-1'])
-        raw, st = set_and_capture(app, name, val, via=rng.choice(['response', 'raised', 'redirect']))
+        raw, st = set_and_capture(app, name, val, via=rng.choice(['response', 'raised', 'redirect', 'raised-over']))
         if raw is None:
             got, present = [], False
         else:
@@ -172,7 +176,7 @@ def run(chk):
     for sec in secrets[:2]:
         for i, v in enumerate(values):
             name = 'sess%d' % (i % 3) if i < 10 else 'same'
-            raw, st = set_and_capture(app, name, v, secret=sec, via=rng.choice(['response', 'response', 'redirect']))
+            raw, st = set_and_capture(app, name, v, secret=sec, via=rng.choice(['response', 'response', 'redirect', 'raised-over']))
             if raw is None:
                 continue
             res, loads = read_back(app, name, raw, secret=sec)
@@ -247,7 +251,8 @@ def run(chk):
         k = k.encode('utf8') if isinstance(k, str) else k
         k = hashlib.md5(k).digest() if len(k) > 64 else k
         return k.ljust(64, b'\0')
-    for sa, sb in (('k', 'k\x00'), ('s3cret', 's3cret\x00\x00'), ('k' * 70, hashlib.md5(b'k' * 70).digest()), ('k', 'k\x01'), ('k' * 64, 'k' * 64 + '\x00')):
+    for sa, sb in ((b'staple', b'correct horse battery'), (b'hunter2', b'correct horse battery'), (b'', b'correct horse battery'), (b'c', 'correct horse battery'),
+                   ('k', 'k\x00'), ('s3cret', 's3cret\x00\x00'), ('k' * 70, hashlib.md5(b'k' * 70).digest()), ('k', 'k\x01'), ('k' * 64, 'k' * 64 + '\x00')):
         rawa, _st = set_and_capture(app, 'hk', {'user': 'alice'}, secret=sa, via='response')
         if rawa is None:
             continue
